@@ -139,6 +139,10 @@ def locate_slice(values, start, stop, step, issorted=False):
 
         if step is not None and step < 0:
             istart -= 1
+            if istart < 0:
+                # start bound lies before the first element: nothing to select
+                # (a negative index would wrap around to the end of the axis)
+                return 0, 0
     else:
         istart = None
 
